@@ -97,13 +97,19 @@ type simChain struct {
 	nm  *simNM
 	reg module.Regulator
 	bm  module.BlockManager
+	bmw module.BlockManager
 	sm  module.ServiceManager
 	cs  module.Consensus
 }
 
 func (c *simChain) NetworkManager() module.NetworkManager { return c.nm }
 func (c *simChain) Regulator() module.Regulator           { return c.reg }
-func (c *simChain) BlockManager() module.BlockManager     { return c.bm }
+func (c *simChain) BlockManager() module.BlockManager {
+	if c.bmw != nil {
+		return c.bmw // what the consensus engine sees (bmwrap.go)
+	}
+	return c.bm
+}
 func (c *simChain) ServiceManager() module.ServiceManager { return c.sm }
 func (c *simChain) Consensus() module.Consensus           { return c.cs }
 
@@ -256,6 +262,7 @@ type config struct {
 	DropPrecommitPm int // per-mille of precommit votes of rounds 0-2 that are lost (locks without commits)
 	MinBlockGen     bool // chain configured not to produce empty blocks (validators wait for transactions before proposing)
 	SplitPolkaPm    int // per-mille of (height, round < 3) in which prevotes reach only a tape-chosen subset of the validators (some lock, some do not)
+	Isolate      bool  // profile lag: one running validator is cut off until the others are LagHeights ahead
 	LagHeights   int64 // fastsync profile: the laggard boots when the others have finalized this many heights
 }
 
@@ -272,6 +279,7 @@ type sim struct {
 	start    time.Time
 	wake     chan struct{}
 	lockReqs []*lockReq
+	deferred []*deferredCall // block-manager requests of the engines not started yet (bmwrap.go)
 	fsLast   map[[2]int]time.Duration // delivery time of the last fast-sync message per (src, dst): ordered stream
 	polkaSplit map[string]int // "height/round" -> bitmask of destinations starved of prevotes (0: none)
 	laggard  *node // fastsync profile: the validator that boots late (set when it boots)
@@ -508,6 +516,7 @@ func (s *sim) boot(inc *incarnation) {
 	}
 	tc.SetBlockManager(bm)
 	sc.bm = bm
+	sc.bmw = &bmWrap{BlockManager: bm, inc: inc}
 	inc.bm = bm
 	var ts module.Timestamper
 	if n.skewUs != 0 {
